@@ -162,6 +162,19 @@ Fixpoint segments (d : list N) (cur : list N) : list elem :=
   | b :: r => if (b =? 0)%N then ES (rev cur) :: segments r [] else segments r (b :: cur)
   end.
 
+(* mpt::source<T>: the elements visited from position p on, in steps of [step], while inside the span *)
+Fixpoint cvisit (l : list fv) (step : Z) (fuel : nat) (p : Z) : list elem :=
+  match fuel with
+  | O => []
+  | S f =>
+      if ((0 <=? p) && (p <? Z.of_nat (length l)))%Z then
+        match nth_error l (Z.to_nat p) with
+        | Some v => EV v :: cvisit l step f (p + step)%Z
+        | None => []
+        end
+      else []
+  end.
+
 (* ---- the cursor a mechanism state stands for *)
 Definition abs (s : src) : sstate :=
   match s with
@@ -190,6 +203,9 @@ Definition abs (s : src) : sstate :=
                               else segments (skipn (m_off m) d) []
                   | None => [] end in
       CList full rest false
+  | SSrc m =>
+      let n := length (c_elems m) in
+      CList (cvisit (c_elems m) (c_step m) n (csrc_start m)) (cvisit (c_elems m) (c_step m) n (c_pos m)) false
   end.
 
 (* the cursor of a text iterator whose elements are read as keywords / vectors *)
